@@ -378,6 +378,7 @@ def run_stats(sc, hist, violations):
         "edits": edits,
         "edited_args": len(edited_args),
         "topology": kn["topology"],
+        "mode": kn.get("mode", "mixed"),
         "faults": kn["faults"],
         "warnings": kn["warnings"],
         "interleaving": int.from_bytes(inter.digest()[:8], "big"),
@@ -430,6 +431,7 @@ def execute(sc, surface, ops=None, want_trace=False, max_viol=5):
     orc = fork_call(lambda: oracle_child(sc, reqs))
     violations = compare(sc, hist, orc)
     impure = purity(sc, reqs, orc, violations)
+    n_refs = len(reqs)
     if impure:
         # a contaminated reference makes I3 verdicts against it meaningless: report I7 first
         violations = impure + violations
@@ -441,7 +443,7 @@ def execute(sc, surface, ops=None, want_trace=False, max_viol=5):
         "ops_digest": od,
         "violations": violations[:max_viol],
         "n_violations": len(violations),
-        "stats": run_stats(sc, hist, violations),
+        "stats": dict(run_stats(sc, hist, violations), references=n_refs),
         "state_hashes": hist["state_hashes"],
     }
     if violations or want_trace:
